@@ -1,4 +1,14 @@
-"""G16 — nesting discipline of the macro-argument lexer; G17 — escape discipline of string-shaped lexemes.
+"""G16 — nesting discipline of the macro-argument lexer; G17 — escape discipline of string-shaped lexemes;
+G18 — the preprocessor's partition of the text: the plain-text run stops exactly where a sibling alternative can start.
+
+G18.  The preprocessor grammar cuts the text into  comment | string | escaped identifier | plain run | directive.  The plain
+run is a repetition of a negated character class (plus special cases for single characters that only sometimes start a
+sibling).  For "directive-free text passes unchanged and is rejected only when a string / comment is unterminated":
+  * every character the class stops at is the first character of some sibling alternative (otherwise text containing it
+    cannot be parsed at all), and every first character of a sibling is in the class (otherwise the run swallows the
+    opening of a string / comment / directive and the partition is lost);
+  * a special-case chunk `tag(c)` guarded by a negative look-ahead must exclude exactly the second characters of the
+    siblings' two-character openers that start with c (`/` before `/` or `*`).
 
 Both read the grammar IR of lexeme functions (functions of the parser crate that return a span / Locate and are built from
 raw character-class lexers).  A lexeme's *parts* are the parsers it applies in order.
@@ -160,6 +170,102 @@ def role_lexeme(g, node_name):
     return out
 
 
+def run_partition(ctx):
+    from rules.g_alt import first_lits
+    g = ctx.grammar
+    r = RuleResult('G18', 'preprocessor partition: the plain-text run stops exactly at the first characters of its sibling alternatives')
+    W = lambda fn: '%s/%s:%d' % (g.crate, fn.file, fn.line)
+    runs = []
+    for f in g.parsers():
+        body = f.item.get('body')
+        if body and any(n.get('k') == 'path' and n['p'] == 'SourceDescription::NotDirective' for n in __import__('vlib.sx', fromlist=['walk']).walk(body)):
+            runs.append(f)
+    r.exactly('plain_run_function(role: builds SourceDescription::NotDirective)', len(runs), 1)
+    if len(runs) != 1:
+        return r
+    run = runs[0]
+    hosts = []
+    for f in g.parsers():
+        ir = f.ir if f.ir is not None else (f.tail[1] if f.tail and f.tail[0] == 'apply' else None)
+        if ir is None:
+            continue
+        for node in grammar.iter_ir(ir):
+            if node.get('op') == 'alt' and any(a.get('op') == 'ref' and a['name'] == run.name for a in node['arms']):
+                hosts.append((f, node))
+    if len(hosts) != 1:
+        r.undecided('%s:%s:host' % (g.crate, run.name), W(run), '%d ordered choices contain the plain run' % len(hosts))
+        return r
+    host, alt = hosts[0]
+    firsts = set()
+    for a in alt['arms']:
+        if a.get('op') == 'ref' and a['name'] == run.name:
+            continue
+        fl = first_lits(a, g)
+        if not fl:
+            r.undecided('%s:%s:sibling-first' % (g.crate, host.name), W(host), 'first characters of alternative `%s` unknown' % grammar.show(a)[:40])
+            return r
+        firsts |= {t for _, t in fl}
+        r.inst('%s:sibling:%s' % (host.name, grammar.show(a)[:30]), {'alternative': grammar.show(a)[:40], 'starts_with': sorted(t for _, t in fl)})
+    first_chars = {t[0] for t in firsts if t}
+    ps = parts_of(run)
+    if len(ps) != 1 or ps[0].get('op') not in ('many1', 'many0'):
+        r.undecided('%s:%s:shape' % (g.crate, run.name), W(run), 'the plain run is not a repetition of chunks')
+        return r
+    cls = None
+    specials = {}
+    unknown_chunk = False
+    for ch in chunks_of(ps[0]):
+        c = flat(ch) if ch.get('op') != 'terminated' else [ch]
+        k = neg_class(c[0]) if len(c) == 1 else None
+        if k is not None:
+            cls = k if cls is None else (cls & k)
+            continue
+        if ch.get('op') == 'terminated' and lit_of(ch['p'] if ch['p'].get('op') != 'map' else ch['p']['p']) is not None:
+            t = lit_of(ch['p'] if ch['p'].get('op') != 'map' else ch['p']['p'])
+            q = ch['q']
+            ex = None
+            core = q['p'] if q.get('op') == 'peek' else q
+            if core.get('op') == 'not':
+                inner = core['p']
+                if inner.get('op') == 'prim' and inner.get('name') == 'one_of' and inner['args'] and inner['args'][0].get('k') == 'lit':
+                    ex = set(str(inner['args'][0]['v']))
+                else:
+                    arms = inner['arms'] if inner.get('op') == 'alt' else [inner]
+                    ex = {lit_of(a) for a in arms}
+            elif q.get('op') == 'peek' and core.get('op') == 'prim' and core.get('name') == 'none_of' and core['args'] and core['args'][0].get('k') == 'lit':
+                ex = set(str(core['args'][0]['v']))      # (that this form fails at end of input is G15's finding)
+            if ex is not None and None not in ex and len(t) == 1:
+                specials[t] = ex
+                continue
+        r.undecided('%s:%s:chunk' % (g.crate, run.name), W(run), 'chunk `%s` of the plain run is not a class or a guarded single character' % grammar.show(ch)[:50])
+        unknown_chunk = True
+    if cls is None:
+        r.undecided('%s:%s:class' % (g.crate, run.name), W(run), 'no negated character class in the plain run')
+        return r
+    key = '%s:%s' % (g.crate, run.name)
+    r.inst(key + ':class', {'run': run.name, 'stops_at': ''.join(sorted(cls)), 'siblings_start_with': ''.join(sorted(first_chars))})
+    for c_ in sorted(cls - first_chars):
+        r.fail('%s:stop-without-sibling:%s' % (key, c_.encode('unicode_escape').decode()), W(run),
+               '%s stops at %r but no sibling alternative of %s starts with it: directive-free text containing it is rejected' % (run.name, c_, host.name))
+    for c_ in sorted(first_chars - cls):
+        r.fail('%s:sibling-start-swallowed:%s' % (key, c_.encode('unicode_escape').decode()), W(run),
+               '%s does not stop at %r, the first character of a sibling alternative of %s: the run swallows the opening of a %s' %
+               (run.name, c_, host.name, {'"': 'string literal', '/': 'comment', '`': 'directive', '\\': 'escaped identifier'}.get(c_, 'sibling')))
+    for t, ex in sorted(specials.items()):
+        want = {x[1] for x in firsts if len(x) == 2 and x[0] == t}
+        r.inst(key + ':special:' + t, {'character': t, 'not_followed_by': sorted(ex), 'sibling_openers': sorted(x for x in firsts if x.startswith(t))})
+        for x in sorted(want - ex):
+            r.fail('%s:special-too-wide:%s%s' % (key, t, x), W(run), '%s takes a lone %r even when it is followed by %r: the opening %r of a sibling is swallowed' % (run.name, t, x, t + x))
+        for x in sorted(ex - want):
+            r.fail('%s:special-too-narrow:%s%s' % (key, t, x), W(run), '%s refuses %r before %r although no sibling starts with %r: that text is rejected' % (run.name, t, x, t + x))
+    multi = {x[0] for x in firsts if len(x) >= 2}
+    single = {x[0] for x in firsts if len(x) == 1}
+    for c_ in sorted((multi - single) & cls):
+        if c_ not in specials and not unknown_chunk:
+            r.fail('%s:lone-char-rejected:%s' % (key, c_), W(run), 'siblings start with %r only as part of a longer opener, %s stops at it, and there is no special case for a lone %r: such text is rejected' % (c_, run.name, c_))
+    return r
+
+
 def run(ctx):
     g = ctx.grammar
     r16 = RuleResult('G16', 'macro-argument lexer: commas separate arguments only outside matched (), [], {} and strings')
@@ -187,7 +293,7 @@ def run(ctx):
             tops.setdefault(lx.name, (lx, []))[1].append(node)
     if not tops:
         r16.fail('anchor:argument-lexer', '-', 'no lexeme under the parsers building ActualArgument / DefaultText found (fail closed)')
-        return [r16, r17]
+        return [r16, r17, run_partition(ctx)]
     BR = set('()[]{}') | {'"'}
 
     def judge_level(lx, top, depth, visited):
@@ -265,4 +371,4 @@ def run(ctx):
     for name, (lx, nodes) in sorted(tops.items()):
         judge_level(lx, True, 0, visited)
     r16.floor('argument_lexer_levels', len(visited), 2)
-    return [r16, r17]
+    return [r16, r17, run_partition(ctx)]
